@@ -182,3 +182,60 @@ def pipeline_nn(md, src: str, env: dict | None = None, inline_mode: bool = False
 def render_nn(md, src: str, env: dict | None = None, inline_mode: bool = False) -> str:
     toks, env = pipeline_nn(md, src, env, inline_mode)
     return md.renderer.render(toks, md.options, env)
+
+
+def deep_equal(a, b) -> bool:
+    """Structural equality of plain-data views (dict/list/tuple/str/int/bool/None) that may contain symbolic strings.
+    Runs outside CrossHair's tracer (native speed); strings are compared code point by code point and only pairs with a
+    symbolic code point consult the solver."""
+    with no_tracing():
+        return _deq(a, b)
+
+
+def _is_str(x):
+    if type(x) is str:
+        return True
+    import sys
+
+    m = sys.modules.get("crosshair.libimpl.builtinslib")
+    return m is not None and isinstance(x, m.AnySymbolicStr)
+
+
+def _deq(a, b) -> bool:
+    from .symstr import cps, same
+
+    if a is b:
+        return True
+    sa, sb = _is_str(a), _is_str(b)
+    if sa or sb:
+        if not (sa and sb):
+            return False
+        if type(a) is str and type(b) is str:
+            return a == b
+        return same(cps(a), cps(b))
+    if isinstance(a, dict) and isinstance(b, dict):
+        if len(a) != len(b):
+            return False
+        for k in a:
+            if k not in b or not _deq(a[k], b[k]):
+                return False
+        return True
+    if isinstance(a, (list, tuple)) and isinstance(b, (list, tuple)):
+        if len(a) != len(b):
+            return False
+        for x, y in zip(a, b):
+            if not _deq(x, y):
+                return False
+        return True
+    if type(a) in (int, bool, float, type(None)) and type(b) in (int, bool, float, type(None)):
+        return a == b
+    # symbolic ints/bools or anything else: compare under tracing
+    from .sym import is_symbolic
+
+    try:
+        from crosshair.tracers import ResumedTracing
+
+        with ResumedTracing():
+            return True if a == b else False
+    except Exception:
+        return a == b
